@@ -1,6 +1,6 @@
-(* Proofs about the binary64 simple-ADC model (C16): saturation at the low end and monotonicity,
-   for ALL finite ranges and ALL non-NaN voltages (including infinities), whenever the casts are
-   defined.  Uses Flocq's IEEE-754 correctness theorems. *)
+(* Lemmas about the binary64 simple-ADC model (C16): inversion of finite results, comparisons,
+   np.clip, the span, the scaled value.  The theorems about the converter are in AdcSimple.v.
+   Uses Flocq's IEEE-754 correctness theorems. *)
 From Coq Require Import ZArith List Bool Reals Lia Lra.
 From Flocq Require Import Core BinarySingleNaN.
 From PyxelV Require Import Lib.B64 Model.Adc.
@@ -261,15 +261,6 @@ Proof.
   apply round_0. auto with typeclass_instances.
 Qed.
 
-Lemma simple_code_inv w bits vmin vmax x c :
-  simple_code w bits vmin vmax x = Some c ->
-  is_finite (simple_scaled bits vmin vmax x) = true /\ c = Btrunc (simple_scaled bits vmin vmax x).
-Proof.
-  unfold simple_code, cast_unsigned, btruncZ. intros H.
-  destruct (simple_scaled bits vmin vmax x) eqn:E; try discriminate;
-    (destruct ((0 <=? _)%Z && (_ <? _)%Z); [|discriminate]); inversion H; split; reflexivity.
-Qed.
-
 (* ---------------------------------------------------------------- the scaled value *)
 
 Section Scaled.
@@ -303,41 +294,22 @@ Proof.
   rewrite E3, E2, E1, Ec. reflexivity.
 Qed.
 
-(* with an overflowing span every defined code is 0 *)
+(* with an overflowing span the scaled value is a zero or NaN *)
 Lemma scaled_inf_span (x : b64) s :
-  S = B754_infinity s -> is_finite (simple_scaled bits vmin vmax x) = true ->
-  Btrunc (simple_scaled bits vmin vmax x) = 0%Z.
+  S = B754_infinity s ->
+  (exists s', simple_scaled bits vmin vmax x = B754_zero s') \/ simple_scaled bits vmin vmax x = B754_nan.
 Proof.
-  intros ES F. unfold simple_scaled in *. fold Mf S in F |- *. rewrite ES in *.
-  destruct (bmul (bsub (bclip x vmin vmax) vmin) Mf) as [s1|s1| |s1 m1 e1 B1]; try discriminate; reflexivity.
+  intros ES. unfold simple_scaled. fold Mf S. rewrite ES.
+  destruct (bmul (bsub (bclip x vmin vmax) vmin) Mf) as [s1|s1| |s1 m1 e1 B1];
+    [left; eexists; reflexivity|right; reflexivity|right; reflexivity|left; eexists; reflexivity].
 Qed.
 
-Theorem simple_monotone w (x y : b64) cx cy :
-  bis_nan x = false -> bis_nan y = false -> ble x y = true ->
-  simple_code w bits vmin vmax x = Some cx ->
-  simple_code w bits vmin vmax y = Some cy ->
-  (cx <= cy)%Z.
+(* every voltage at or below the range minimum gives a scaled value that is a zero, whatever the span *)
+Lemma scaled_low (x : b64) :
+  (bits <= 64)%Z -> bis_nan x = false -> ble x vmin = true ->
+  is_finite (simple_scaled bits vmin vmax x) = true /\ B2R (simple_scaled bits vmin vmax x) = 0.
 Proof.
-  intros Nx Ny Hxy Hx Hy.
-  apply simple_code_inv in Hx. destruct Hx as [Fx ->].
-  apply simple_code_inv in Hy. destruct Hy as [Fy ->].
-  destruct (span_cases vmin vmax Fmin Fmax Hrange) as [[FS PS]|[s ES]].
-  - apply Btrunc_mono. fold S in FS, PS.
-    rewrite (scaled_value x Nx FS PS Fx), (scaled_value y Ny FS PS Fy).
-    apply rnd_le. apply Rmult_le_compat_r; [apply Rlt_le, Rinv_0_lt_compat; exact PS|].
-    apply rnd_le. apply Rmult_le_compat_r; [apply Mf_nonneg|].
-    apply rnd_le. apply Rplus_le_compat_r.
-    apply clampX_mono; auto. lra.
-  - fold S in ES. rewrite (scaled_inf_span x s ES Fx), (scaled_inf_span y s ES Fy). lia.
-Qed.
-
-(* low saturation: every voltage at or below the range minimum is digitised to 0 *)
-Theorem simple_low_saturates w (x : b64) :
-  (bits <= 64)%Z -> (0 <= w)%Z ->
-  bis_nan x = false -> ble x vmin = true ->
-  simple_code w bits vmin vmax x = Some 0%Z.
-Proof.
-  intros Hb Hw Nx Hx.
+  intros Hb Nx Hx.
   destruct (bclip_B2R x vmin vmax Nx Fmin Fmax (Rlt_le _ _ Hrange)) as [Fc Ec].
   rewrite (clampX_low _ _ x vmin (Rlt_le _ _ Hrange) eq_refl Fmin Nx Hx) in Ec.
   (* r1 = c - vmin = 0 *)
@@ -353,22 +325,15 @@ Proof.
     rewrite E1, Rmult_0_l. rewrite rnd_eq, rnd_0, Rabs_R0.
     rewrite Rlt_bool_true by apply bpow_gt_0. intros [E [F _]]. rewrite F1, FM in F. split; assumption. }
   destruct H2 as [F2 E2].
-  assert (H3 : is_finite (simple_scaled bits vmin vmax x) = true /\ B2R (simple_scaled bits vmin vmax x) = 0).
-  { unfold simple_scaled. fold Mf S.
-    destruct (span_cases vmin vmax Fmin Fmax Hrange) as [[FS PS]|[s ES]].
-    - fold S in FS, PS. unfold bdiv. assert (ZS : B2R S <> 0) by lra.
-      generalize (Bdiv_correct 53 1024 _ _ mode_NE (bmul (bsub (bclip x vmin vmax) vmin) Mf) S ZS).
-      rewrite E2. unfold Rdiv. rewrite Rmult_0_l. rewrite rnd_eq, rnd_0, Rabs_R0.
-      rewrite Rlt_bool_true by apply bpow_gt_0. intros [E [F _]]. rewrite F2 in F. split; assumption.
-    - fold S in ES. rewrite ES.
-      destruct (bmul (bsub (bclip x vmin vmax) vmin) Mf) as [s1|s1| |s1 m1 e1 B1]; try discriminate;
-        split; reflexivity. }
-  destruct H3 as [F3 E3].
-  unfold simple_code, btruncZ.
-  rewrite (Btrunc_zero _ E3).
-  destruct (simple_scaled bits vmin vmax x); try discriminate;
-    unfold cast_unsigned; simpl (0 <=? 0)%Z;
-    (assert (0 <? 2 ^ w = true)%Z as -> by (apply Z.ltb_lt; apply Z.pow_pos_nonneg; lia)); reflexivity.
+  unfold simple_scaled. fold Mf S.
+  destruct (span_cases vmin vmax Fmin Fmax Hrange) as [[FS PS]|[s ES]].
+  - fold S in FS, PS. unfold bdiv. assert (ZS : B2R S <> 0) by lra.
+    generalize (Bdiv_correct 53 1024 _ _ mode_NE (bmul (bsub (bclip x vmin vmax) vmin) Mf) S ZS).
+    rewrite E2. unfold Rdiv. rewrite Rmult_0_l. rewrite rnd_eq, rnd_0, Rabs_R0.
+    rewrite Rlt_bool_true by apply bpow_gt_0. intros [E [F _]]. rewrite F2 in F. split; assumption.
+  - fold S in ES. rewrite ES.
+    destruct (bmul (bsub (bclip x vmin vmax) vmin) Mf) as [s1|s1| |s1 m1 e1 B1]; try discriminate;
+      split; reflexivity.
 Qed.
 
 End Scaled.
